@@ -660,10 +660,17 @@ func (in *inliner) substitute(call *ast.CallExpr, tg *target, ctx *fctx, pos tok
 	for i, a := range tg.args {
 		binds = append(binds, bind{sig.Params().At(i), a})
 	}
+	// One argument with a side effect (typically a getter call) is accepted when substituting cannot change when
+	// or whether it is evaluated: its parameter is used exactly once, the body has no call, no short circuit and
+	// reads nothing but its parameters and constants (checked below, once the uses are counted).
+	var impure []*types.Var
 	for _, b := range binds {
 		if !in.pure(info, b.arg) {
-			return nil
+			impure = append(impure, b.v)
 		}
+	}
+	if len(impure) > 1 {
+		return nil
 	}
 	hasLit, hasCall := false, false
 	ast.Inspect(e, func(n ast.Node) bool {
@@ -705,6 +712,37 @@ func (in *inliner) substitute(call *ast.CallExpr, tg *target, ctx *fctx, pos tok
 	})
 	if addrTaken {
 		return nil
+	}
+	if len(impure) == 1 {
+		if uses[impure[0]] != 1 || hasCall {
+			return nil
+		}
+		okBody := true
+		ast.Inspect(e, func(n ast.Node) bool {
+			switch x := n.(type) {
+			case *ast.BinaryExpr:
+				if x.Op == token.LAND || x.Op == token.LOR {
+					okBody = false
+				}
+			case *ast.IndexExpr, *ast.SliceExpr, *ast.StarExpr, *ast.TypeAssertExpr:
+				okBody = false // may panic: the order against the argument's effect would matter
+			}
+			return okBody
+		})
+		for v := range uses {
+			isParam := false
+			for _, b := range binds {
+				if b.v == v {
+					isParam = true
+				}
+			}
+			if !isParam {
+				okBody = false
+			}
+		}
+		if !okBody {
+			return nil
+		}
 	}
 	for _, b := range binds {
 		if uses[b.v] > 1 && hasCall && !simpleOperand(b.arg) {
